@@ -138,7 +138,19 @@ var c14Operands = map[string]interface{}{
 		B string
 	}{7, "s"}, "slice": []interface{}{1, "a"}, "stringer": StringerV{S: "strg"}, "error": ErrV{S: "err"}, "nil": nil,
 }
-var c14OperandNames = []string{"int", "uint", "float", "complex", "string", "bytes", "bool", "pointer", "struct", "slice", "stringer", "error", "nil"}
+var c14OperandNames = []string{"int", "uint", "float", "complex", "string", "bytes", "bool", "pointer", "struct", "slice", "stringer", "error", "nil", "nilformatter", "nilstringer", "formatter"}
+
+// c14Fmt: a Formatter with a pointer receiver that dereferences it (the nil
+// pointer makes it panic: fmt prints <nil>)
+type c14Fmt struct{ x int }
+
+func (p *c14Fmt) Format(st fmt.State, verb rune) { fmt.Fprintf(st, "F(%d,%c)", p.x, verb) }
+
+func init() {
+	c14Operands["nilformatter"] = (*c14Fmt)(nil)
+	c14Operands["nilstringer"] = (*StringerP)(nil)
+	c14Operands["formatter"] = &c14Fmt{x: 3}
+}
 
 func (s *C14Spec) args(x interface{}) []interface{} {
 	var a []interface{}
